@@ -1,1 +1,149 @@
-//! cfg(kani) child module of `crates/core/src/commands/prune.rs` (harnesses to be added)
+//! C02 harnesses: cfg(kani) child module of `commands/prune.rs`.
+use super::*;
+use crate::id::Id;
+use crate::blob::BlobLocation;
+
+fn bid(b: u8) -> BlobId {
+    let mut a = [0u8; 32];
+    a[0] = b;
+    BlobId::from(Id::new(a))
+}
+fn pid(b: u8) -> PackId {
+    let mut a = [0u8; 32];
+    a[0] = b;
+    PackId::from(Id::new(a))
+}
+fn blob(id: u8, tpe: BlobType, offset: u32, length: u32) -> IndexBlob {
+    IndexBlob { id: bid(id), tpe, location: BlobLocation { offset, length, uncompressed_length: None } }
+}
+fn no_debug_stats(_s: &mut DebugStats, _pi: &PackInfo, _todo: PackToDo, _status: EnumSet<PackStatus>) {}
+
+/// U02.1 `PackInfo::from_pack` -- BOUNDED: one pack with 3 blobs (ids from {1,2}, so duplicates inside the
+/// pack occur), `used_ids` with up to 2 keys and symbolic reference counts 0..=3.
+/// Contract (from the property): blobs are partitioned into used/unused with sizes adding up; an id whose
+/// last outstanding reference is met in this pack makes the pack used; after the call no id that occurs
+/// in a pack counted as used here is still outstanding (so no later pack is the "only" holder wrongly).
+#[kani::proof]
+#[kani::unwind(5)]
+fn c02_bounded_from_pack_accounting() {
+    let ids: [u8; 3] = [kani::any(), kani::any(), kani::any()];
+    kani::assume(ids[0] >= 1 && ids[0] <= 2 && ids[1] >= 1 && ids[1] <= 2 && ids[2] >= 1 && ids[2] <= 2);
+    let lens: [u32; 3] = [kani::any(), kani::any(), kani::any()];
+    kani::assume(lens[0] < 1000 && lens[1] < 1000 && lens[2] < 1000);
+    let pack = PrunePack {
+        id: pid(9),
+        blob_type: BlobType::Data,
+        size: 0,
+        delete_mark: false,
+        to_do: PackToDo::Undecided,
+        time: None,
+        blobs: vec![blob(ids[0], BlobType::Data, 0, lens[0]), blob(ids[1], BlobType::Data, 0, lens[1]), blob(ids[2], BlobType::Data, 0, lens[2])],
+    };
+    // reference counts as find_used_blobs leaves them: number of index entries still to be seen
+    let c1: u8 = kani::any();
+    let c2: u8 = kani::any();
+    let has1: bool = kani::any();
+    let has2: bool = kani::any();
+    kani::assume(c1 <= 3 && c2 <= 3);
+    let mut used = BTreeMap::new();
+    if has1 { let _ = used.insert(bid(1), c1); }
+    if has2 { let _ = used.insert(bid(2), c2); }
+
+    let pi = PackInfo::from_pack(&pack, &mut used);
+
+    // every blob is counted exactly once, sizes add up
+    assert!(u32::from(pi.used_blobs) + u32::from(pi.unused_blobs) == 3);
+    assert!(pi.used_size + pi.unused_size == lens[0] + lens[1] + lens[2]);
+    // occurrences of id k in this pack
+    let n1 = (ids[0] == 1) as u8 + (ids[1] == 1) as u8 + (ids[2] == 1) as u8;
+    let n2 = 3 - n1;
+    // "last copy lives here": the outstanding count of a referenced id is exhausted by this pack
+    let last1 = has1 && c1 >= 1 && n1 >= c1;
+    let last2 = has2 && c2 >= 1 && n2 >= c2;
+    if last1 || last2 {
+        assert!(pi.used_blobs >= 1, "SAFETY: a pack holding the last outstanding copy of a referenced blob is used");
+    }
+    // ids that are not referenced at all never make the pack used
+    let ref1 = has1 && c1 >= 1;
+    let ref2 = has2 && c2 >= 1;
+    if !(ref1 && n1 > 0) && !(ref2 && n2 > 0) {
+        assert!(pi.used_blobs == 0);
+    }
+    // once the pack is used, every referenced id occurring in it is settled (count 0) for later packs
+    if pi.used_blobs >= 1 {
+        if n1 > 0 { assert!(used.get(&bid(1)).copied().unwrap_or(0) == 0); }
+        if n2 > 0 { assert!(used.get(&bid(2)).copied().unwrap_or(0) == 0); }
+    }
+    kani::cover!(pi.used_blobs == 3);
+    kani::cover!(pi.used_blobs == 0 && has1 && c1 == 3 && n1 == 2);
+    core::mem::forget(used);
+    core::mem::forget(pack);
+}
+
+/// U02.2 decision table of `PrunePlan::decide_packs` for ONE pack holding ONE blob -- complete over: marked
+/// or not, blob referenced or not, pack time None / before / after the limit, all boolean options.
+/// keep_pack = keep_delete = 0 and "now" fixed at 1000 s (jiff span arithmetic stays concrete).
+#[kani::proof]
+#[kani::unwind(34)]
+#[kani::stub(DebugStats::add, no_debug_stats)]
+fn c02_decision_table_single_pack() {
+    let marked: bool = kani::any();
+    let referenced: bool = kani::any();
+    let tpe = if kani::any() { BlobType::Tree } else { BlobType::Data };
+    let t: i64 = kani::any();
+    kani::assume(t >= 900 && t <= 1100);
+    let has_time: bool = kani::any();
+    let time = if has_time { Some(Timestamp::from_second(t).unwrap()) } else { None };
+    let size: u32 = kani::any();
+    let pack = PrunePack {
+        id: pid(9), blob_type: tpe, size, delete_mark: marked, to_do: PackToDo::Undecided, time,
+        blobs: vec![blob(1, tpe, 0, 100)],
+    };
+    let mut used_ids = BTreeMap::new();
+    if referenced { let _ = used_ids.insert(bid(1), 1u8); }
+    let now = Timestamp::from_second(1000).unwrap().to_zoned(jiff::tz::TimeZone::UTC);
+    let mut plan = PrunePlan {
+        time: now,
+        used_ids,
+        existing_packs: BTreeMap::new(),
+        repack_candidates: Vec::new(),
+        index_files: vec![PruneIndex { id: IndexId::default(), modified: false, packs: vec![pack] }],
+        stats: PruneStats::default(),
+    };
+    let sizer = BlobTypeMap::<PackSizer>::from_fn(|_| PackSizer::fixed(kani::any()));
+    let repack_cacheable_only: bool = kani::any();
+    let repack_uncompressed: bool = kani::any();
+    let repack_all: bool = kani::any();
+    let r = plan.decide_packs(Span::default(), Span::default(), repack_cacheable_only, repack_uncompressed, repack_all, &sizer);
+    assert!(r.is_ok());
+    core::mem::forget(r);
+    let todo = plan.index_files[0].packs[0].to_do;
+    let candidate = plan.repack_candidates.len() == 1;
+
+    if referenced {
+        // a pack holding a blob some snapshot still needs is never scheduled for removal
+        assert!(todo != PackToDo::MarkDelete && todo != PackToDo::Delete && todo != PackToDo::KeepMarked && todo != PackToDo::KeepMarkedAndCorrect);
+        if marked {
+            assert!(todo == PackToDo::Recover, "marked pack that is needed again is recovered");
+        } else {
+            assert!(todo == PackToDo::Keep || (todo == PackToDo::Undecided && candidate));
+        }
+    } else if marked {
+        // unreferenced and already marked: deleted only once the keep-delete time has passed
+        match (has_time, todo) {
+            (false, x) => assert!(x == PackToDo::KeepMarkedAndCorrect),
+            (true, PackToDo::Delete) => assert!(t <= 1000),
+            (true, x) => assert!(x == PackToDo::KeepMarked && t > 1000),
+        }
+    } else {
+        // unreferenced, not marked: first phase only marks (never deletes), young packs are kept
+        let too_young = has_time && t > 1000;
+        assert!(todo == if too_young { PackToDo::Keep } else { PackToDo::MarkDelete });
+        assert!(!candidate);
+    }
+    kani::cover!(todo == PackToDo::Recover);
+    kani::cover!(todo == PackToDo::Delete);
+    kani::cover!(todo == PackToDo::MarkDelete);
+    kani::cover!(candidate);
+    core::mem::forget(plan);
+}
